@@ -556,6 +556,126 @@ pub fn test_ls_ignore(c: &LsIgnoreCase, ctx: &mut CaseCtx) -> Result<(), String>
     }
 }
 
+
+// ------------------------------------------------------------------------------------------------
+// harper.js: one long-lived Linter, checks in both languages, imported words, then an ignore
+
+#[derive(Debug, Clone, Serialize, Deserialize, PartialEq, Eq, Hash)]
+pub struct JsIgnoreCase {
+    pub text: String,
+    pub markdown: bool,
+    pub sel: u16,
+    /// what the page does between showing the lint and the user ignoring it:
+    /// 0 check the same text in the other language, 1 check another text, 2 import a word that
+    /// stands next to a problem (or occurs nowhere), 3 read the configuration, 4 export the words
+    pub between: Vec<u8>,
+}
+
+const JS_NONWORDS: &[&str] = &["grault", "zorvath", "quexlin"];
+
+fn js_lint_key(l: &harper_wasm::Lint) -> String {
+    serde_json::to_string(l).unwrap_or_default()
+}
+
+pub fn test_js_ignore(c: &JsIgnoreCase, ctx: &mut CaseCtx) -> Result<(), String> {
+    use harper_wasm::{Language, Linter};
+    let (lang, other) = if c.markdown { (Language::Markdown, Language::Plain) } else { (Language::Plain, Language::Markdown) };
+    let r = crate::core::catch(|| -> Result<(), String> {
+        let mut linter = Linter::new(harper_wasm::Dialect::American);
+        let shown = linter.lint(c.text.clone(), lang);
+        if shown.is_empty() {
+            ctx.class("no_lints");
+            return Ok(());
+        }
+        let k = (c.sel as usize * shown.len()) >> 16;
+        let target_key = js_lint_key(&shown[k]);
+        let mut imported: Vec<String> = vec![];
+        for (i, step) in c.between.iter().enumerate() {
+            match step % 5 {
+                0 => {
+                    let _ = linter.lint(c.text.clone(), other);
+                    ctx.class("same_text_checked_in_the_other_language_before_the_ignore");
+                }
+                1 => {
+                    let _ = linter.lint("Another teh text with `code` and *stars* here.".to_string(), lang);
+                }
+                2 => {
+                    let w = JS_NONWORDS.iter().find(|w| c.text.contains(**w) && !imported.iter().any(|x| x == **w)).map(|w| w.to_string()).unwrap_or(format!("zqpageword{i}"));
+                    linter.import_words(vec![w.clone()]);
+                    imported.push(w);
+                    ctx.class("words_imported_before_the_ignore");
+                }
+                3 => {
+                    let _ = linter.get_lint_config_as_json();
+                }
+                _ => {
+                    let _ = linter.export_words();
+                }
+            }
+        }
+        // what a Linter that never did anything else reports for this text under the same words
+        let mut fresh = Linter::new(harper_wasm::Dialect::American);
+        if !imported.is_empty() {
+            fresh.import_words(imported.clone());
+        }
+        let reference = fresh.lint(c.text.clone(), lang);
+        let ref_keys: Vec<String> = reference.iter().map(js_lint_key).collect();
+        if !ref_keys.contains(&target_key) {
+            // the import changed or removed the lint that was shown: nothing to ignore any more
+            ctx.class("shown_lint_changed_by_the_import");
+            return Ok(());
+        }
+        let target: harper_wasm::Lint = serde_json::from_str(&target_key).map_err(|e| e.to_string())?;
+        let (t_msg, t_text) = (target.message(), target.get_problem_text());
+        linter.ignore_lint(c.text.clone(), target);
+        let after = linter.lint(c.text.clone(), lang);
+        let after_keys: Vec<String> = after.iter().map(js_lint_key).collect();
+        ctx.nontrivial(c);
+        if after_keys.contains(&target_key) {
+            return Err(format!(
+                "harper.js Linter: {:?} checked as {lang:?}, steps {:?} (0 same text in the other language, 1 another text, 2 import {:?}, 3 read config, 4 export words), then ignore_lint of {t_text:?} ({t_msg}): the next check still reports it",
+                c.text, c.between, imported
+            ));
+        }
+        for (l, key) in reference.iter().zip(&ref_keys) {
+            if (l.message() != t_msg || l.get_problem_text() != t_text) && !after_keys.contains(key) {
+                return Err(format!(
+                    "harper.js Linter: after ignoring {t_text:?} ({t_msg}) in {:?} the lint {:?} ({}) is hidden as well",
+                    c.text, l.get_problem_text(), l.message()
+                ));
+            }
+        }
+        for key in &after_keys {
+            if !ref_keys.contains(key) {
+                return Err(format!("harper.js Linter: after an ignore, {:?} gets a lint a fresh Linter does not report: {key}", c.text));
+            }
+        }
+        Ok(())
+    });
+    match r {
+        Ok(v) => v,
+        Err(_) => {
+            ctx.class("skipped_c01_panic");
+            Ok(())
+        }
+    }
+}
+
+fn js_ignore_strategy() -> BoxedStrategy<JsIgnoreCase> {
+    // problems with markup or an unknown word right next to them: there the two languages, and the
+    // dictionaries before and after an import, lex different neighbours
+    let marked = (g::sel_str(ERRORS), g::sel_str(&["*{e}*", "**{e}**", "`this` {e}", "{e} `that`", "_{e}_", "[{e}](u)", "{n} {e}", "{e} {n}", "*{n}* {e}", "{e}"]), g::sel_str(JS_NONWORDS), g::plain_word())
+        .prop_map(|(e, shape, n, w)| format!("Look at the {w} {}, please.", shape.replace("{e}", &e).replace("{n}", &n)));
+    let text = prop_oneof![
+        5 => proptest::collection::vec(marked, 1..3).prop_map(|v| v.join(" ")),
+        2 => repeated_problem_text(),
+        1 => g::text().prop_map(|t| t.trim().to_string()),
+    ];
+    (text, any::<bool>(), any::<u16>(), proptest::collection::vec(prop_oneof![3 => Just(0u8), 2 => Just(2u8), 2 => 0u8..5], 0..4))
+        .prop_map(|(text, markdown, sel, between)| JsIgnoreCase { text, markdown, sel, between })
+        .boxed()
+}
+
 pub fn run(run: &mut Run) {
     {
         let shrink = run.max_shrink_iters;
@@ -578,11 +698,15 @@ pub fn run(run: &mut Run) {
         run.max_shrink_iters = shrink;
         run.threads = threads;
     }
+    let n = run.n(1_500, 40_000);
+    run.prop("js_api_ignore", n, js_ignore_strategy, test_js_ignore);
+    run.require_class("js_api_ignore", "same_text_checked_in_the_other_language_before_the_ignore", (n / 5) as u64);
+    run.require_class("js_api_ignore", "words_imported_before_the_ignore", (n / 5) as u64);
     let n = run.n(3_000, 150_000);
     run.prop("ignore_across_texts", n, across_strategy, test_across);
     run.require_class("ignore_across_texts", "same_lint_other_neighbour", (n / 10) as u64);
     run.require_class("ignore_across_texts", "same_lint_other_neighbour_at_document_start", (n / 20) as u64);
-    run.rule = "documents biased to repeated problems (the same error 2-3 times with equal or different neighbours, optionally next to quotes/brackets) plus G-TEXT documents, plain and Markdown, curated rules; a random subset of the lints is ignored; then (b) the ignore list goes through JSON and (c) a paragraph is prepended and/or appended (with/without quotes). Oracle uses an independent identity: equal kind/message/suggestions/priority and equal texts of the tokens intersecting the span, the 2 chars before and the 2 chars after. language_server_ignore: the real harper-ls on Rust, Python, plain-text and Markdown files: one published diagnostic is ignored through the command its code action carries, then 1-5 edits elsewhere in the file (new definitions = new identifiers, further comments with other problems, removals, blank lines, a prepended line); after every step the publication must be what a second server that ignored nothing publishes for the same text, minus exactly that lint. ignore_across_texts: the same problem embedded in two texts that differ right next to it (0-3 characters between the document start and the lint, other punctuation after it, plain vs Markdown); every lint of the first text is ignored, and in the second text only lints with the same identity may be hidden. Non-trivial = something ignored and (two lints with equal fields but different neighbourhoods, or a quote in a neighbourhood, or text prepended).".into();
+    run.rule = "documents biased to repeated problems (the same error 2-3 times with equal or different neighbours, optionally next to quotes/brackets) plus G-TEXT documents, plain and Markdown, curated rules; a random subset of the lints is ignored; then (b) the ignore list goes through JSON and (c) a paragraph is prepended and/or appended (with/without quotes). Oracle uses an independent identity: equal kind/message/suggestions/priority and equal texts of the tokens intersecting the span, the 2 chars before and the 2 chars after. language_server_ignore: the real harper-ls on Rust, Python, plain-text and Markdown files: one published diagnostic is ignored through the command its code action carries, then 1-5 edits elsewhere in the file (new definitions = new identifiers, further comments with other problems, removals, blank lines, a prepended line); after every step the publication must be what a second server that ignored nothing publishes for the same text, minus exactly that lint. js_api_ignore: one harper.js Linter shows the lints of a text (problems next to Markdown markup or next to an unknown word), then checks the same text in the other language, checks another text, imports words or reads its state, and only then the user ignores one of the shown lints: the next check must not report it, must hide nothing with another message or text, and must invent nothing (reference: a fresh Linter with the same words). ignore_across_texts: the same problem embedded in two texts that differ right next to it (0-3 characters between the document start and the lint, other punctuation after it, plain vs Markdown); every lint of the first text is ignored, and in the second text only lints with the same identity may be hidden. Non-trivial = something ignored and (two lints with equal fields but different neighbourhoods, or a quote in a neighbourhood, or text prepended).".into();
     let n = run.n(3_000, 150_000);
     run.prop("ignore_and_edit", n, ignore_strategy, test_ignore);
     run.require_class("ignore_and_edit", "equal_fields_different_neighbourhood", (n / 10) as u64);
@@ -594,6 +718,10 @@ pub fn replay(check: &str, case: Value, _run: &mut Run) -> Result<(), String> {
     if check == "language_server_ignore" {
         let c: LsIgnoreCase = serde_json::from_value(case).map_err(|e| e.to_string())?;
         return test_ls_ignore(&c, &mut CaseCtx::default());
+    }
+    if check == "js_api_ignore" {
+        let c: JsIgnoreCase = serde_json::from_value(case).map_err(|e| e.to_string())?;
+        return test_js_ignore(&c, &mut CaseCtx::default());
     }
     if check == "ignore_across_texts" {
         let c: AcrossCase = serde_json::from_value(case).map_err(|e| e.to_string())?;
